@@ -9,7 +9,7 @@ theorem fresh_of_any (env : Env) (path : List Str) (hp : WFPath path)
   intro t ht e
   have : (absEnv env).nodes.any (fun n => decide (n.path = path)) = true := by
     simp only [absEnv, List.any_map, List.any_eq_true]
-    exact ⟨t, ht, by simp [Function.comp, absN, absNode, e, splitDot_joinDot path hp]⟩
+    exact ⟨t, ht, by simp [Function.comp, absN, e, splitDot_joinDot path hp]⟩
   rw [this] at hno
   cases hno
 
@@ -27,12 +27,12 @@ theorem def_core (tbl : UnitTable) (env : Env) (hinv : Inv tbl env) (path : List
     (hconf : conforms kw dims v' = some v') :
     ∃ env', processNode tbl env (hostNode path kw dims raw ref sl unit') = .ok env' ∧
       absEnv env' = { absEnv env with nodes := (absEnv env).nodes ++
-        [⟨path, kw, dims, unit', v', false, none, none, [], [], none⟩] } ∧ Inv tbl env' := by
+        [⟨path, kw, dims, unit', some v', false, none, none, [], [], none⟩] } ∧ Inv tbl env' := by
   have hfresh := fresh_of_any env path hp hno
   have hpn := processNode_append tbl env (hostNode path kw dims raw ref sl unit') raw v' rfl hk hu rfl rfl hcast
     (fun t ht => hfresh t ht)
   refine ⟨_, hpn, ?_, ?_⟩
-  · simp [absEnv, absN, absNode, hostNode, blank, splitDot_joinDot path hp]
+  · simp [absEnv, absN, hostNode, blank, splitDot_joinDot path hp]
   · refine ⟨?_, hinv.2⟩
     intro n hn
     simp only [List.mem_append, List.mem_singleton] at hn
@@ -56,7 +56,7 @@ theorem mod_core (tbl : UnitTable) (env : Env) (hinv : Inv tbl env) (path : List
       (env.nodes.map absN) = some ss' := by
     rw [hname]; exact h
   obtain ⟨ns', hmf, habs, hgood⟩ := modifyFirst_abs tbl { modNode path raw ref unit' with value := some raw } raw
-    env.nodes ss' hinv.1 rfl rfl h'
+    env.nodes ss' _ (fun t _ s' hs => ⟨hs, Or.inl rfl⟩) hinv.1 rfl h'
   have hpn := processNode_mod tbl env (modNode path raw ref unit') raw ns' rfl rfl rfl hmf
   refine ⟨_, hpn, ?_, ⟨hgood, hinv.2⟩⟩
   simp [absEnv, habs]
@@ -137,7 +137,7 @@ theorem refine_defn (tbl : UnitTable) (env : Env) (hinv : Inv tbl env) (path : L
                 sEval_inj tbl env hinv source hws p hpp hq sl v u hev
               have hsk : src.kw = kw := by
                 have := hkw ss (absN src) hl hsel
-                simpa [absN, absNode] using this
+                simpa [absN] using this
               have hconf' : Conf kw vs := by rw [← hsk]; exact hconf
               have hcast : castValue (hostNode path kw dims vs (some (renderRef source p)) sl
                   (pickUnit unit u)) vs = some v' :=
